@@ -7,6 +7,9 @@ ops
          the state is kept for the following "mortar" ops
   {"op":"mortar","i":fracture,"nlow":cells of the lower-dimensional grid}
       -> `createInterface` on face_cells[i] of the kept state
+  {"op":"line","nx":..,"ny":..,"axis":0|1|2,"s":node,"e":node} -> `findNodesOnLine`
+  {"op":"plane","n":[nx,ny,nz],"xs":[[x nodes],[y nodes],[z nodes]],"o":normal direction,"p":plane coordinate,"tol":..,
+   "P":[[u,v] x 4 snapped corners in the in-plane coordinates]} -> {"faces": planeFaces, "nodes": planeNodes}
 -/
 import PorepyVerif.Common.Wire
 import PorepyVerif.C25.Model
@@ -83,6 +86,25 @@ def step (st : St) (j : Json) : R (St × Json) := do
       match createInterface nlow (s.fc i) s.fcCols with
       | .error e => pure (st, err (errName e))
       | .ok m => pure (st, obj [("sides", ofNat m.sides), ("mcells", ofList (fun (p : Nat × Nat) => ofNats [p.1, p.2]) m.cells)])
+  | "line" =>
+    let nx ← fNat j "nx"
+    let ny ← fNat j "ny"
+    let axis ← fNat j "axis"
+    let s ← fNat j "s"
+    let e ← fNat j "e"
+    pure (st, ofNats (findNodesOnLine nx ny axis s e))
+  | "plane" =>
+    let n ← fNats j "n"
+    let xs ← fRatss j "xs"
+    let o ← fNat j "o"
+    let p ← fRat j "p"
+    let tol ← fRat j "tol"
+    let P ← fRatss j "P"
+    let nA := n.toArray
+    let xA := (xs.map List.toArray).toArray
+    let g : Grid3 := { n := fun c => nA.getD c 0, x := fun c i => (xA.getD c #[]).getD i 0 }
+    let P2 := P.map (fun (r : List Rat) => (r.getD 0 0, r.getD 1 0))
+    pure (st, obj [("faces", ofNats (g.planeFaces o p tol P2)), ("nodes", ofNats (g.planeNodes o p tol P2))])
   | _ => throw s!"unknown op {op}"
 
 def main : IO Unit := runDriver (none : St) step
